@@ -305,30 +305,36 @@ func (n *Nodis) RPopLPush(source, destination string) []byte {
 	return v[0]
 }
 
-func (n *Nodis) addBlockKey(key string, c chan string) {
+// addBlockKeys registers a waiter (a channel with room for one wake-up) for the keys
+func (n *Nodis) addBlockKeys(c chan string, keys ...string) {
 	n.blockingKeysMutex.Lock()
-	cList, ok := n.blockingKeys.Get(key)
-	if !ok {
-		cList = list.NewLinkedListG[chan string]()
-		cList.LPush(c)
-		n.blockingKeys.Set(key, cList)
-	} else {
+	for _, key := range keys {
+		cList, ok := n.blockingKeys.Get(key)
+		if !ok {
+			cList = list.NewLinkedListG[chan string]()
+			n.blockingKeys.Set(key, cList)
+		}
 		cList.LPush(c)
 	}
 	n.blockingKeysMutex.Unlock()
 }
 
+// notifyBlockingKey wakes the waiters of a key up. It never blocks: it is called by a push that
+// still holds the key, and a waiter that has already been woken (or is about to leave) does not
+// need a second wake-up - it looks at all its keys again anyway.
 func (n *Nodis) notifyBlockingKey(key string) {
 	n.blockingKeysMutex.RLock()
 	cList, ok := n.blockingKeys.Get(key)
-	n.blockingKeysMutex.RUnlock()
-	if !ok {
-		return
+	if ok {
+		cList.ForRange(func(c chan string) bool {
+			select {
+			case c <- key:
+			default:
+			}
+			return true
+		})
 	}
-	cList.ForRange(func(c chan string) bool {
-		c <- key
-		return true
-	})
+	n.blockingKeysMutex.RUnlock()
 }
 
 func (n *Nodis) removeBlockingKeys(rc chan string, keys ...string) {
@@ -336,8 +342,7 @@ func (n *Nodis) removeBlockingKeys(rc chan string, keys ...string) {
 	for _, key := range keys {
 		cList, ok := n.blockingKeys.Get(key)
 		if !ok {
-			n.blockingKeysMutex.Unlock()
-			return
+			continue
 		}
 		cList.ForRangeNode(func(node *list.NodeG[chan string]) bool {
 			if node.Value() == rc {
@@ -347,64 +352,42 @@ func (n *Nodis) removeBlockingKeys(rc chan string, keys ...string) {
 			return true
 		})
 	}
-	close(rc)
 	n.blockingKeysMutex.Unlock()
 }
 
-func (n *Nodis) BLPop(timeout time.Duration, keys ...string) (string, []byte) {
-	var c = make(chan string)
+// blockingPop pops from the first of the keys that has an element, or waits until one of them
+// gets one (timeout 0: for ever). The waiter is registered before the keys are looked at, so a
+// push between the look and the wait cannot be missed; a woken waiter that finds its element
+// taken by somebody else goes on waiting for the rest of its time.
+func (n *Nodis) blockingPop(timeout time.Duration, pop func(key string, count int64) [][]byte, keys ...string) (string, []byte) {
+	var c = make(chan string, 1)
+	n.addBlockKeys(c, keys...)
 	defer n.removeBlockingKeys(c, keys...)
-	for _, key := range keys {
-		results := n.LPop(key, 1)
-		if results != nil {
-			n.notify(func() []patch.Op {
-				return []patch.Op{{Type: patch.OpTypeLPop, Data: &patch.OpLPop{Key: key}}}
-			})
-			return key, results[0]
-		}
-		verifPoint("bpop.beforeRegister")
-		n.addBlockKey(key, c)
+	var expired <-chan time.Time
+	if timeout > 0 {
+		timer := time.NewTimer(timeout)
+		defer timer.Stop()
+		expired = timer.C
 	}
-	select {
-	case key := <-c:
-		results := n.LPop(key, 1)
-		if results != nil {
-			n.notify(func() []patch.Op {
-				return []patch.Op{{Type: patch.OpTypeLPop, Data: &patch.OpLPop{Key: key}}}
-			})
-			return key, results[0]
+	for {
+		for _, key := range keys {
+			results := pop(key, 1)
+			if len(results) > 0 {
+				return key, results[0]
+			}
 		}
-	case <-time.After(timeout):
-		break
+		select {
+		case <-c:
+		case <-expired:
+			return "", nil
+		}
 	}
-	return "", nil
+}
+
+func (n *Nodis) BLPop(timeout time.Duration, keys ...string) (string, []byte) {
+	return n.blockingPop(timeout, n.LPop, keys...)
 }
 
 func (n *Nodis) BRPop(timeout time.Duration, keys ...string) (string, []byte) {
-	var c = make(chan string)
-	defer n.removeBlockingKeys(c, keys...)
-	for _, key := range keys {
-		results := n.RPop(key, 1)
-		if results != nil {
-			n.notify(func() []patch.Op {
-				return []patch.Op{{Type: patch.OpTypeRPop, Data: &patch.OpRPop{Key: key}}}
-			})
-			return key, results[0]
-		}
-		verifPoint("bpop.beforeRegister")
-		n.addBlockKey(key, c)
-	}
-	select {
-	case key := <-c:
-		results := n.LPop(key, 1)
-		if results != nil {
-			n.notify(func() []patch.Op {
-				return []patch.Op{{Type: patch.OpTypeLPop, Data: &patch.OpLPop{Key: key}}}
-			})
-			return key, results[0]
-		}
-	case <-time.After(timeout):
-		break
-	}
-	return "", nil
+	return n.blockingPop(timeout, n.RPop, keys...)
 }
